@@ -519,7 +519,7 @@ def oracleC18 (p : Parsed) (fs : List (String × String)) : Option String :=
 
 /-- C03 for a transcoded RPC: the client's response is valid in the client's own protocol and has
     exactly one terminal disposition in the protocol's place. -/
-def oracleC03 (p : Parsed) (fs : List (String × String)) (clean : Bool := false) : Option String :=
+def oracleC03 (p : Parsed) (fs : List (String × String)) (clean : Bool := false) (respValues : Option (List Bytes) := none) : Option String :=
   match branchOf p with
   | .transcoded o =>
     let cb := fieldOf fs "cb"
@@ -583,7 +583,26 @@ def oracleC03 (p : Parsed) (fs : List (String × String)) (clean : Bool := false
               | none => false
             | _ => false
         | none => false
-      if lying then some "a response frame is flagged compressed but its bytes are not compressed" else none
+      if lying then some "a response frame is flagged compressed but its bytes are not compressed" else
+      let frames : List (Nat × Bytes) := if cb == "-" then [] else (cb.splitOn ",").filterMap fun t => match t.splitOn ":" with
+        | ["F0", h] => (fromHex h).map fun b => (0, b)
+        | ["F0"] => some (0, [])
+        | ["F1", h] => (fromHex h).map fun b => (1, b)
+        | ["F1"] => some (1, [])
+        | _ => none
+      if clean && declared.isNone && frames.any (fun f => f.1 == 1) then some "a response frame is flagged compressed although the response declares no compression" else
+      -- with a well-behaved backend and known response values: the flag of every frame says what its bytes are
+      match respValues with
+      | some vs =>
+        if code != 0 || vs.length != frames.length then none else
+        let bad := (frames.zip vs).any fun (f, v) =>
+          let want := fakeWorld.encode o.ccodec v
+          if f.1 == 0 then f.2 != want
+          else match declared with
+            | some z => (fakeWorld.decompress z f.2) != some want
+            | none => true
+        if bad then some "the compressed flag of a response frame does not say what its bytes are (or the message is not the backend's)" else none
+      | none => none
   | _ => none
 
 /-- C13: when no conversion applies (or no endpoint matches and an unknown-endpoint handler
@@ -1027,7 +1046,23 @@ def oracleC10 (p : Parsed) (ex : Expect) (fs : List (String × String)) : Option
     let pl := o.plan fakeWorld
     let buffering := !(pl.sameReqCompression && pl.sameReqCodec && !pl.mustDecode)
     match o.clientEnveloper with
-    | none => none
+    | none =>
+      -- a client without envelopes: the whole body is the one message; it is buffered (under the limit)
+      -- whenever the target has envelopes or the message has to be converted
+      let body := p.sc.src.chunks.flatten
+      if !(o.serverEnveloper.isSome || buffering) || p.sc.src.ending == .unexpected || o.cform == .connectGet then none else
+      let dec : Bytes := match o.cReqComp with
+        | some z => if body.isEmpty then body else (fakeWorld.decompress z body).getD []
+        | none => body
+      let reenc : Bytes := if o.ccodec == o.scodec then dec else
+        (match fakeWorld.decode o.ccodec dec with
+         | some v => fakeWorld.encode o.scodec v
+         | none => [])
+      -- (decompression happens only when the message is converted)
+      let over := body.length > L || (buffering && (dec.length > L || reenc.length > L))
+      if !over then none
+      else if code == some 0 then some "the request message has a representation above the limit on a buffering path, yet the client saw success"
+      else if (fieldOf fs "br") != "-" then some "an oversized request message was handed to the backend" else none
     | some _ =>
       if !buffering then none else
       let body := p.sc.src.chunks.flatten
@@ -1169,7 +1204,8 @@ def specE2E (prop : String) (hexJson : String) (res : List String) : String :=
       match prop with
       | "C11" => some (oracleC11 p fs)
       | "C18" => some (oracleC18 p fs)
-      | "C03" => some (oracleC03 p fs (parseExpect p.json).isSome)
+      | "C03" => some (oracleC03 p fs (parseExpect p.json).isSome
+          ((parseExpect p.json).bind fun ex => if ex.sizesSafe && ex.errCode == 0 then some ex.respValues else none))
       | "C13" => some (oracleC13 p res)
       | "C02" => some (oracleC02 p fs (parseExpect p.json).isSome)
       | "C19" => some (oracleC19 p fs)
